@@ -863,6 +863,13 @@ impl<'a> Sc<'a> {
                 out.push(Step::Done(s));
                 return;
             }
+            Op::SkipNextUnless { v } => {
+                let last = s.res[t].last().cloned().unwrap_or(0);
+                s.pc[t] += if last == v as i64 { 1 } else { 2 };
+                s.phase[t] = 0;
+                out.push(Step::Done(s));
+                return;
+            }
             Op::PanicIf { v } => {
                 let last = s.res[t].last().cloned().unwrap_or(0);
                 if v < 0 || last == v as i64 {
